@@ -7,7 +7,7 @@ import shutil
 from .. import tlc
 from ..core import PY, VERIF, MachineryError, Verdict, repo_env, run_group, scratch, parallel_jobs, NCPU
 
-ACTIONS = ["CallStart", "SerialStep", "ParentPut", "WorkerTake", "WorkerDone", "WorkerRaise", "ParentGet",
+ACTIONS = ["CallStart", "SerialStep", "ParentPut", "WorkerTake", "WorkerDone", "WorkerRaise", "ParentGetAt",
            "ParentCheckTask", "ParentCheckRes", "ParentReturn", "ParentRaise", "Shutdown"]
 
 ACT_OP = {"ParentPut": "P:tput", "ParentGet": "P:rget", "ParentCheckTask": "P:tempty", "ParentCheckRes": "P:rempty",
@@ -31,7 +31,10 @@ def jcfg(st):
 
 def split_label(lab):
     if "(" in lab:
-        return lab[:lab.index("(")], int(lab[lab.index("(") + 1:-1])
+        name, k = lab[:lab.index("(")], int(lab[lab.index("(") + 1:-1])
+        if name == "ParentGetAt":      # the parameter is the queue position, not a worker
+            return "ParentGet", 0
+        return name, k
     return lab, 0
 
 
